@@ -23,6 +23,8 @@ REPO = os.environ.get("VERIF_REPO", "/repo")
 ENV = dict(os.environ)
 ENV["CARGO_NET_OFFLINE"] = "true"
 ENV.pop("RUSTUP_TOOLCHAIN", None)
+# the cfg(kani) hook in ppoprf::ggm includes the harness bodies from this directory
+ENV["VERIF_KIN_DIR"] = os.path.join(VERIF, "kin")
 
 
 def _limit(mem_gb):
@@ -270,8 +272,11 @@ def run_many(jobs, nslots, log, logdir, prefix="kt", crate_dir=KANI_CRATE):
     slots.prepare(log)
     results = [None] * len(jobs)
     jq = queue.Queue()
-    for i, j in enumerate(jobs):
+    # heavy jobs first (longest-processing-time order keeps the tail short)
+    for i, j in sorted(enumerate(jobs), key=lambda x: -x[1].get("mem", 12)):
         jq.put((i, j))
+    budget = {"free": float(os.environ.get("VERIF_MEM_GB", "54"))}
+    cv = threading.Condition()
 
     def worker():
         while True:
@@ -279,6 +284,13 @@ def run_many(jobs, nslots, log, logdir, prefix="kt", crate_dir=KANI_CRATE):
                 i, j = jq.get_nowait()
             except queue.Empty:
                 return
+            need = min(float(j.get("mem", 12)), float(os.environ.get("VERIF_MEM_GB", "54")))
+            # memory-aware admission: the sum of the address-space caps of running jobs
+            # stays below the machine's RAM (no swap on this image)
+            with cv:
+                while budget["free"] < need:
+                    cv.wait()
+                budget["free"] -= need
             slot = slots.q.get()
             try:
                 r = run_kani(j["harness"], slot, j.get("cap", 600), j.get("mem", 12),
@@ -296,6 +308,9 @@ def run_many(jobs, nslots, log, logdir, prefix="kt", crate_dir=KANI_CRATE):
                 log("  [%s] %-46s %6.1fs  %s" % (st.upper()[:4], j["harness"], r["wall_s"], why[:160]))
             finally:
                 slots.q.put(slot)
+                with cv:
+                    budget["free"] += need
+                    cv.notify_all()
 
     ths = [threading.Thread(target=worker) for _ in range(slots.n)]
     for t in ths:
